@@ -110,6 +110,16 @@ _poll_dispatch_and_take_back_(struct qb_loop_item *item,
 				   pe->ufd.revents,
 				   pe->item.user_data);
 	if (res < 0) {
+		/*
+		 * stop watching it as well: when the callback has not closed
+		 * the descriptor it would stay in the poll set and be reported
+		 * again and again for an entry that is gone
+		 */
+		if (pe->ufd.fd >= 0 && pe->state != QB_POLL_ENTRY_DELETED) {
+			struct qb_poll_source *s =
+			    (struct qb_poll_source *)pe->item.source;
+			(void)s->driver.del(s, pe, pe->ufd.fd, pe->install_pos);
+		}
 		_poll_entry_mark_deleted_(pe);
 	} else if (pe->state != QB_POLL_ENTRY_DELETED) {
 		pe->state = QB_POLL_ENTRY_ACTIVE;
